@@ -157,20 +157,19 @@ theorem images_separate (S : Sys Rq Rs σ) (st : St Rq Rs σ) (a : Act) (g : Nat
       obtain ⟨j, e, rs⟩ := r
       obtain ⟨hj, hsel⟩ := findSlot_some hfind
       obtain ⟨het, _⟩ := selDone_some hsel
-      have himg : (consume S st t).img = match S.grp e.req with
-          | some g' => upd st.img g' (S.inputs e.req rs (st.img g'))
-          | none => st.img := by
+      have himg : (consume S st t).img = updOpt st.img (imgWrite S st.img e.req rs) := by
         simp only [consume, hfind]
-        cases S.grp e.req <;> rfl
       rw [himg] at hch ⊢
       cases hg : S.grp e.req with
-      | none => rw [hg] at hch; exact absurd rfl hch
+      | none =>
+        simp only [imgWrite, hg] at hch
+        exact absurd rfl hch
       | some g' =>
-        rw [hg] at hch
+        simp only [imgWrite, hg] at hch ⊢
         by_cases hgg : g = g'
         · subst hgg
-          exact ⟨t, j, e, rs, rfl, hfind, het, hg, by simp [upd]⟩
-        · exact absurd (by simp [upd, hgg]) hch
+          exact ⟨t, j, e, rs, rfl, hfind, het, hg, by simp [updOpt]⟩
+        · exact absurd (by simp [updOpt, hgg]) hch
 
 /-- … and in a reachable state that response is the one the segment produced for that very cycle
     request of that task (no foreign data can enter an image). -/
